@@ -10,7 +10,7 @@
     about crash points INSIDE a single operation (every prefix of its writes): that is checked on every prefix of the
     real write log, whose bytes equal the model's. *)
 From Coq Require Import ZArith List Bool Relations.
-From PyFatV Require Import Base.Bytes Base.PyEnv Gen.Pure Model.Codec Model.Dir Model.FS Proofs.Session Proofs.Device Proofs.DirCodec Proofs.DirState Proofs.FatState Proofs.HdrState Proofs.Identity Proofs.BootSafe.
+From PyFatV Require Import Base.Bytes Base.PyEnv Gen.Pure Model.Codec Model.Dir Model.FS Proofs.Session Proofs.Device Proofs.DirCodec Proofs.DirState Proofs.FatState Proofs.HdrState Proofs.Identity Proofs.BootSafe Proofs.FatBound.
 Import ListNotations.
 Open Scope Z_scope.
 
@@ -73,4 +73,12 @@ Proof.
       destruct E as (h & E). exact (ws_openbin _ _ _ _ _ _ E).
   - split; [intro H; apply (f_equal (fun s => length (s_log s))) in H; vm_compute in H; discriminate|].
     split; [vm_compute; reflexivity|]. split; [vm_compute; reflexivity|]. vm_compute. repeat constructor.
+Qed.
+
+(** the same history also satisfies the link invariant of C04 ([fb]) at both ends, and its steps are [mstep]s *)
+Example C04_invariant_example : fb ex16_s1 /\ fb ex11_b /\ max_cluster ex16_s1 = 4362 /\ chain ex11_b 2 = ([2], true).
+Proof.
+  split; [split; [right; left; vm_compute; reflexivity|apply bounded_of_forallb; vm_compute; reflexivity]|].
+  split; [split; [right; left; vm_compute; reflexivity|apply bounded_of_forallb; vm_compute; reflexivity]|].
+  split; vm_compute; reflexivity.
 Qed.
